@@ -20,7 +20,7 @@ import (
 )
 
 func init() {
-	pbt.Describe("(well-formed files also receive token-level mutations: a line cut short after any token, a token dropped, duplicated, swapped or taken from another line) total/positions: arbitrary byte strings (rapid byte slices; token soup with hostile fragments: invalid UTF-8, unterminated quotes, backslash at EOF, /* comments, stray brackets, NUL, lone CR, CRLF, long lines) and well-formed files: Parse, ParseLax, ParseWork, ModulePath must return (panics and hangs are caught by the harness), no error text contains 'internal error', and every position in errors and in the syntax tree (through hook VerifParseSyntax, raw tokens) is recomputed from the bytes: Byte in range, Line = 1+newlines before, LineRune = 1+runes since the last newline, the input at Byte starts with the token/paren/comment described, the tokens of a line are exactly the non-blank pieces between Start and End; directive-level errors point at the Start of a statement. strictlax: modgen files, and the same files with unknown directives, unknown blocks and malformed main-module-only directives inserted: strict-accepted => lax-accepted with equal module/go/require/retract values; insertions make strict fail and leave the lax values unchanged. modulepath: strict-accepted files whose module directive is a single line naming a valid import path: ModulePath == parsed path (the one known shape, a block line whose first token is the bare word 'module', is excluded by construction and re-executed as a regression). Non-trivial: a syntax tree with >=2 statements, or an error beyond byte 0; strictlax: >=1 insertion; modulepath: module path present. Distinct by JSON rendering. Token mutations also put a directive keyword or bracket in place of a token and reduce a line to a single keyword (inside a block usually the block's own verb).",
+	pbt.Describe("(well-formed files also receive token-level mutations: a line cut short after any token, a token dropped, duplicated, swapped or taken from another line) total/positions: arbitrary byte strings (rapid byte slices; token soup with hostile fragments: invalid UTF-8, unterminated quotes, backslash at EOF, /* comments, stray brackets, NUL, lone CR, CRLF, long lines) and well-formed files: Parse, ParseLax, ParseWork, ModulePath must return (panics and hangs are caught by the harness), no error text contains 'internal error', and every position in errors and in the syntax tree (through hook VerifParseSyntax, raw tokens) is recomputed from the bytes: Byte in range, Line = 1+newlines before, LineRune = 1+runes since the last newline, the input at Byte starts with the token/paren/comment described, the tokens of a line are exactly the non-blank pieces between Start and End; directive-level errors point at the Start of a statement. strictlax: modgen files, and the same files with unknown directives, unknown blocks and malformed main-module-only directives inserted: strict-accepted => lax-accepted with equal module/go/require/retract values; insertions make strict fail and leave the lax values unchanged. modulepath: strict-accepted files whose module directive is a single line naming a valid import path: ModulePath == parsed path (the one known shape, a block line whose first token is the bare word 'module', is excluded by construction and re-executed as a regression). Non-trivial: a syntax tree with >=2 statements, or an error beyond byte 0; strictlax: >=1 insertion; modulepath: module path present. Distinct by JSON rendering. Token mutations also put a directive keyword or bracket in place of a token and reduce a line to a single keyword (inside a block usually the block's own verb). Empty and one-character quoted tokens occur as fragments, as arguments of every directive and as token replacements.",
 		"the only error-text observation is the pattern 'internal [word ]error' (the property names it; the code says internal error, internal lexer error, internal parse error)",
 		"a parser that needs more than the watchdog period is reported as a hang",
 		"pathref import-path validity (see C06)")
@@ -36,7 +36,7 @@ var internalErr = regexp.MustCompile(`internal (\w+ )?error`)
 // generators
 
 var frags = []string{"module example.com/m\n", "go 1.21\n", "require (\n", ")\n", "\ta v1.0.0 // indirect\n", "require a v1.0.0\n", "replace a => ./b\n", "retract [v1.0.0, v1.1.0] // why\n", "// comment\n", "\n", "\r\n", "(", ")", "[", "]", "{", "}", ",", "\"", "`", "\\", "/*", "*/", "//", "\x00", "\xff", "\xc3", "\r", " ", "\t", "é", "=>", "\"abc", "\"a\\", "use ./x\n", "godebug a=b\n", "tool x\n", "toolchain go1.21.0\n", "exclude a v1\n", "x ( ) // c\n", "module \"quoted\"\n", "module `raw`\n", "v1.0.0", "a", "unknown directive\n", "require x (\n",
-	"retract (\n", "\tretract\n", "\trequire\n", "\tmodule v1.0.0\n", "exclude (\n", "\texclude\n", "replace (\n", "\treplace\n", "x ( )", "exclude ()", "a b ( )\t", "require ( ) ", "\ufeff", "\ufeffmodule m\n", "\n\r", "\t\r// c\n", "\r// c\n", "// c\r\r\n", "// c\r \n", "\u2028", "\u0085", "\u00a0"}
+	"\"\"", "``", "replace a => \"\"\n", "use \"\"\n", "require \"\" v1.0.0\n", "module \"\"\n", "retract \"\"\n", "godebug \"\"\n", "tool \"\"\n", "toolchain \"\"\n", "go \"\"\n", "retract (\n", "\tretract\n", "\trequire\n", "\tmodule v1.0.0\n", "exclude (\n", "\texclude\n", "replace (\n", "\treplace\n", "x ( )", "exclude ()", "a b ( )\t", "require ( ) ", "\ufeff", "\ufeffmodule m\n", "\n\r", "\t\r// c\n", "\r// c\n", "// c\r\r\n", "// c\r \n", "\u2028", "\u0085", "\u00a0"}
 
 func genText(t *rapid.T) textCase {
 	switch rapid.IntRange(0, 9).Draw(t, "kind") {
@@ -77,7 +77,9 @@ func genText(t *rapid.T) textCase {
 // a line loses its last k tokens (a directive cut short at every possible point), loses,
 // duplicates or swaps a token, or receives a token of another line. Every argument-count and
 // argument-shape test of the directive parsers is reachable this way.
-var keywords = []string{"module", "go", "toolchain", "godebug", "require", "exclude", "replace", "retract", "tool", "use", "ignore", "(", ")", "=>"}
+var keywords = []string{"module", "go", "toolchain", "godebug", "require", "exclude", "replace", "retract", "tool", "use", "ignore", "(", ")", "=>",
+	// empty and near-empty quoted tokens: every argument parser sees a string of length 0 or 1
+	`""`, "``", `" "`, `"/"`, `"."`, `"\\"`}
 
 func mutateTokens(t *rapid.T, s string) string {
 	lines := strings.Split(s, "\n")
